@@ -294,6 +294,88 @@ def r_discipline(ctx):
                     ctx.incomplete_msg(rid, "%s: unrecognised consumption of `%s`: %s" % (fn, vf.src(n)[:60], idiom))
 
 
+REPR_FILES = ("src/validator/json.rs", "src/validator/cbor.rs", "src/validator/control.rs", "src/validator/mod.rs", "src/ast/mod.rs", "src/token.rs")
+REPR_VARIANTS = {"Type2::B16ByteString": "base16", "Type2::B64ByteString": "base64", "ByteValue::B16": "base16", "ByteValue::B64": "base64",
+                 "ast::Type2::B16ByteString": "base16", "ast::Type2::B64ByteString": "base64", "token::ByteValue::B16": "base16", "token::ByteValue::B64": "base64"}
+DECODERS = ("decode", "decode_mut", "decode_len")
+
+
+def _bound_names(pat):
+    """names bound to the payload of a byte-string literal variant inside pattern `pat`: [(variant, name)]"""
+    out = []
+    for x in vf.walk(pat):
+        p = x.get("p")
+        if x["k"] in ("pstruct", "pts") and isinstance(p, str) and p in REPR_VARIANTS:
+            if x["k"] == "pstruct":
+                for fld in x.get("f") or []:
+                    if fld.get("n") == "value":
+                        out += [(p, n) for n in vf.pat_bindings(fld["pat"])]
+            else:
+                for sub in x.get("elems") or x.get("e") or []:
+                    out += [(p, n) for n in vf.pat_bindings(sub)]
+    return out
+
+
+def r_bytesrepr(ctx):
+    rid = "C07.bytesrepr"
+    ctx.rule(rid, "the parser stores the *decoded* bytes of h'..' and b64'..' literals (convert_bytes_value_to_type2); every other place that "
+                  "takes the payload of Type2::B16ByteString / B64ByteString / ByteValue::B16 / B64 uses it as bytes: it is never passed to a "
+                  "base16/base64 decoder again, and no such literal is built from encoder output (a second decoding makes h'61' mean the "
+                  "byte that the *text* \"61\" would decode to, or an error)", floor=15)
+    f = ctx.facts
+    # the producer: the parser must store decoder output
+    prod = 0
+    for fi in f.fn_all(B, "convert_bytes_value_to_type2"):
+        for x in vf.walk(fi.node):
+            if x["k"] == "struct" and x.get("p", "").endswith(("B16ByteString", "B64ByteString")):
+                prod += 1
+                ctx.site(rid, "producer|%s[%s]|%s#%d" % (fi.name, ",".join(fi.cfg) or "any", x["p"].split("::")[-1], prod), B, x["l"], None)
+    if prod == 0:
+        raise vf.Incomplete("no construction of B16ByteString/B64ByteString found in convert_bytes_value_to_type2")
+    for file in REPR_FILES:
+        for fi in f.fns(file):
+            if fi.in_test:
+                continue
+            cnt = {}
+            for n in vf.walk(fi.node):
+                arms = []
+                if n["k"] == "match":
+                    arms = [(a["pat"], a["body"]) for a in n["arms"]]
+                elif n["k"] == "if" and n["c"]["k"] == "let":
+                    arms = [(n["c"]["pat"], n["t"])]
+                for pat, body in arms:
+                    for variant, name in _bound_names(pat):
+                        enc = REPR_VARIANTS[variant]
+                        for c in vf.walk(body):
+                            isdec = (c["k"] == "call" and c["f"]["k"] == "path" and c["f"]["p"].split("::")[-1] in DECODERS) or \
+                                    (c["k"] == "mcall" and c["m"] in DECODERS)
+                            if not isdec:
+                                continue
+                            args = c["a"]
+                            if not any(any(y["k"] == "path" and y["p"] == name for y in vf.walk(a)) for a in args):
+                                continue
+                            base = "%s|%s|decode(%s %s)" % (file.split("/")[-1], fi.qual, variant.split("::")[-1], name)
+                            i = cnt.get(base, 0)
+                            cnt[base] = i + 1
+                            key = "%s#%d" % (base, i)
+                            ctx.site(rid, key, file, c["l"], {"call": vf.src(c)[:80]})
+                            ctx.violation(rid, key, file, c["l"], "%s: the payload `%s` of %s holds decoded bytes but is passed to a %s decoder "
+                                          "again (`%s`)" % (fi.qual, name, variant, enc, vf.src(c)[:70]))
+            for n in vf.walk(fi.node):
+                # constructions from encoder output
+                if n["k"] == "call" and n["f"]["k"] == "path" and n["f"]["p"] in REPR_VARIANTS and n["f"]["p"].split("::")[-2] == "ByteValue":
+                    srcs = vf.src(n)
+                    base = "%s|%s|construct(%s)" % (file.split("/")[-1], fi.qual, n["f"]["p"].split("::")[-1])
+                    i = cnt.get(base, 0)
+                    cnt[base] = i + 1
+                    key = "%s#%d" % (base, i)
+                    ctx.site(rid, key, file, n["l"], {"expr": srcs[:80]})
+                    if any((x["k"] == "call" and x["f"]["k"] == "path" and "encode" in x["f"]["p"].split("::")[-1]) or (x["k"] == "mcall" and x["m"].startswith("encode"))
+                           for x in vf.walk(n)):
+                        ctx.violation(rid, key, file, n["l"], "%s: a byte-string literal is built from encoder output (`%s`): its payload would be "
+                                      "text, not the bytes it denotes" % (fi.qual, srcs[:70]))
+
+
 def r_slices(ctx):
     rid = "C07.slices"
     ctx.rule(rid, "in convert_value_to_type2 / convert_bytes_value_to_type2 the slice `&text[a..text.len()-b]` that strips the delimiters of a "
@@ -351,3 +433,4 @@ def run(ctx):
     ctx.guarded("C07.finite", r_finite)
     ctx.guarded("C07.discipline", r_discipline)
     ctx.guarded("C07.slices", r_slices)
+    ctx.guarded("C07.bytesrepr", r_bytesrepr)
